@@ -37,10 +37,13 @@ def main(argv):
         elif a == '--checks':
             checks_override = argv[i + 1].split(',')
             i += 1
-        elif not a.startswith('--'):
+        elif not a.startswith('--') and not a.endswith('.log'):
             names.append(a)
         i += 1
-    names = names or sorted(d for d in os.listdir(SEEDED) if os.path.isdir(os.path.join(SEEDED, d)))
+    if '--merge' in argv and not names:
+        names = []
+    else:
+        names = names or sorted(d for d in os.listdir(SEEDED) if os.path.isdir(os.path.join(SEEDED, d)))
     base = '/dev/shm' if os.path.isdir('/dev/shm') else None
     results = {}
     for name in names:
@@ -83,7 +86,20 @@ def main(argv):
             sys.stdout.flush()
     caught = sum(1 for r in results.values() if any(isinstance(v, dict) and v.get('exit') == 1 for v in r.values()))
     print('caught %d of %d' % (caught, len(results)))
-    if '--write' in argv:
+    if '--write' in argv or '--merge' in argv:
+        # seeded/results.json accumulates rows over partial runs (--merge <log> imports the printed rows of an earlier run)
+        rj = os.path.join(SEEDED, 'results.json')
+        allres = json.load(open(rj)) if os.path.exists(rj) else {}
+        for a in argv:
+            if a.endswith('.log') and os.path.exists(a):
+                for line in open(a):
+                    nm, _, rest = line.partition(' ')
+                    if rest.startswith('{') and os.path.isdir(os.path.join(SEEDED, nm)):
+                        allres[nm] = json.loads(rest)
+        allres.update(results)
+        results = {k: v for k, v in allres.items() if os.path.isdir(os.path.join(SEEDED, k))}
+        json.dump(results, open(rj, 'w'), indent=1, sort_keys=True)
+        caught = sum(1 for r in results.values() if any(isinstance(v, dict) and v.get('exit') == 1 for v in r.values()))
         # seeded/RESULTS.md: which check catches which seeded change (regenerated by a full run)
         lines = ['# Seeded changes and the checks that catch them', '',
                  'Generated by `/venv/bin/python -m mc.mutants --tests --write` (tier %s). Each change was applied to a scratch worktree of' % tier,
